@@ -568,6 +568,10 @@ func (x *Exec) evalBinary(st *State, e *ast.BinaryExpr) *Term {
 		case token.ADD:
 			return x.arithResult(st, Add(a, b), t, func() *Term { return x.wrapAddSub(Add(a, b), t) }, e)
 		case token.SUB:
+			if bb := basicOf(t); bb != nil && bb.Info()&types.IsUnsigned != 0 && x.spec == 0 && x.arithMode(t) != "wrap" {
+				// unsigned subtraction below zero silently wraps to a huge value: always an obligation
+				x.oblige(st, "arith", "unsigned subtraction "+x.nodeText(e), Ge(a, b), e)
+			}
 			return x.arithResult(st, Sub(a, b), t, func() *Term { return x.wrapAddSub(Sub(a, b), t) }, e)
 		case token.MUL:
 			return x.arithResult(st, Mul(a, b), t, func() *Term { return x.wrapMod(Mul(a, b), t) }, e)
